@@ -1,6 +1,7 @@
 package sim
 
 import (
+	"sort"
 	"fmt"
 )
 
@@ -74,20 +75,96 @@ func OracleC08(tr *Trace) Verdict {
 	for obj, list := range cbs {
 		who := fmt.Sprintf("%s#%d", tr.ID(list[0].Inst), obj)
 		// A Start that is issued while a stop call on the same election is still waiting for the run's goroutines
-		// begins a new run, which can be promoted before the stop call gets round to the OnDemote of the term it
-		// ended: OnPromote, OnPromote, OnDemote. That breaks the alternation (known finding); the late OnDemote
-		// is taken out of the sequence here so that everything after it is judged as usual.
-		excusedPP, lateD := map[int]bool{}, map[int]bool{}
-		for i := 1; i < len(list); i++ {
-			if list[i-1].Kind != "promote-enter" || list[i].Kind != "promote-enter" {
-				continue
+		// begins a new run, which can be promoted (and demoted, and promoted again) before the stop call gets
+		// round to the OnDemote of the term it ended: OnPromote, OnPromote, ..., OnDemote. That breaks the
+		// alternation (known finding). For such elections the callbacks are judged by balance instead: at most
+		// one term is open, plus one per stop call that has begun on a leader, was overlapped by a Start, and
+		// has not delivered its OnDemote yet.
+		overlapped := tr.overlappedLeaderStops(obj)
+		if len(overlapped) > 0 {
+			type ev struct {
+				seq  int
+				kind string // P, D, stop-begin, stop-ret
+				cb   *CB
+				api  *APIRec
 			}
-			if b := tr.stopOverlappedByStart(obj, list[i-1].Seq, list[i].Seq); b != nil && i+1 < len(list) && list[i+1].Kind == "demote-enter" &&
-				(b.RetSeq < 0 || list[i+1].Seq < b.RetSeq || (b.Action != nil && !b.Action.WaitForDemote && b.Call == "StopWithContext")) {
-				v.Viols = append(v.Viols, Viol{At: list[i].T, Sig: "C08 new-run-promoted-before-ondemote-of-the-run-being-stopped (Start overlapping a stop call)",
-					Msg: fmt.Sprintf("%s: %s called at %v was still waiting for the run's goroutines when Start was called again; the new run was promoted at %v, the OnDemote of the stopped term came at %v: OnPromote, OnPromote, OnDemote", who, b.Call, b.CallT, list[i].T, list[i+1].T)})
-				excusedPP[i], lateD[i+1] = true, true
+			var evs []ev
+			for _, cb := range list {
+				k := "D"
+				if cb.Kind == "promote-enter" {
+					k = "P"
+				}
+				evs = append(evs, ev{seq: cb.Seq, kind: k, cb: cb})
 			}
+			for _, b := range overlapped {
+				evs = append(evs, ev{seq: b.CallSeq, kind: "stop-begin", api: b})
+				if b.RetSeq >= 0 {
+					evs = append(evs, ev{seq: b.RetSeq, kind: "stop-ret", api: b})
+				}
+			}
+			sort.Slice(evs, func(i, j int) bool { return evs[i].seq < evs[j].seq })
+			open, pending, asyncOwed, np := 0, 0, 0, 0
+			bad := false
+			for _, e := range evs {
+				if bad {
+					break
+				}
+				if fs, ok := failed[obj]; ok && e.seq > fs {
+					break
+				}
+				switch e.kind {
+				case "stop-begin":
+					pending++
+				case "stop-ret":
+					pending--
+					if e.api.Err == "" {
+						if e.api.Call == "StopWithContext" && e.api.Action != nil && !e.api.Action.WaitForDemote {
+							asyncOwed++ // `go onDemote()`: it may begin a moment after the return
+						} else if open > 1+pending {
+							v.Viols = append(v.Viols, Viol{At: e.api.RetT, Sig: "C08 missing-ondemote cause=stop",
+								Msg: fmt.Sprintf("%s: %s (called at %v on a leader, overlapped by a Start) returned at %v without having invoked the OnDemote of the term it ended: %d terms are open", who, e.api.Call, e.api.CallT, e.api.RetT, open)})
+							bad = true
+						}
+					} else {
+						bad = true // a failed stop call: what becomes of its OnDemote is not stated
+					}
+				case "P":
+					if e.cb.T >= tr.End {
+						bad = true
+						break
+					}
+					if cl := claimsByObj[obj]; np < len(cl) && cl[np].Token != e.cb.Token {
+						v.Viols = append(v.Viols, Viol{At: e.cb.T, Sig: "C08 onpromote-token-differs-from-term-token",
+							Msg: fmt.Sprintf("%s: OnPromote #%d got token %.8s but the term that began at %v has token %.8s", who, np+1, e.cb.Token, cl[np].FromT, cl[np].Token)})
+					}
+					np++
+					open++
+					switch {
+					case open > 1+pending+asyncOwed:
+						v.Viols = append(v.Viols, Viol{At: e.cb.T, Sig: "C08 missing-ondemote cause=" + lastDownCause(obj, e.cb.Seq),
+							Msg: fmt.Sprintf("%s: OnPromote at %v opens term %d while %d stop call(s) overlapped by a Start still owe their OnDemote (the term before ended by: %s)", who, e.cb.T, open, pending+asyncOwed, lastDownCause(obj, e.cb.Seq))})
+						bad = true
+					case open > 1:
+						v.Viols = append(v.Viols, Viol{At: e.cb.T, Sig: "C08 new-run-promoted-before-ondemote-of-the-run-being-stopped (Start overlapping a stop call)",
+							Msg: fmt.Sprintf("%s: a stop call on a leader was still waiting for the run's goroutines when Start was called again; the new run was promoted at %v before the OnDemote of the stopped term: OnPromote, OnPromote, ..., OnDemote", who, e.cb.T)})
+					}
+				case "D":
+					if e.cb.T >= tr.End {
+						bad = true
+						break
+					}
+					open--
+					if asyncOwed > 0 && open < 1+pending+asyncOwed {
+						asyncOwed--
+					}
+					if open < 0 {
+						v.Viols = append(v.Viols, Viol{At: e.cb.T, Sig: "C08 double-ondemote reasons=" + tr.demoteReason(e.cb),
+							Msg: fmt.Sprintf("%s: OnDemote invoked at %v although no term is open", who, e.cb.T)})
+						bad = true
+					}
+				}
+			}
+			continue
 		}
 		np := 0
 		for i, cb := range list {
@@ -116,13 +193,7 @@ func OracleC08(tr *Trace) Verdict {
 				}
 				continue
 			}
-			if lateD[i] || excusedPP[i] {
-				continue
-			}
 			prev := list[i-1]
-			if lateD[i-1] {
-				prev = list[i-2]
-			}
 			if prev.Kind == cb.Kind {
 				if cb.Kind == "demote-enter" {
 					v.Viols = append(v.Viols, Viol{At: cb.T, Sig: fmt.Sprintf("C08 double-ondemote reasons=%s+%s", tr.demoteReason(prev), tr.demoteReason(cb)),
